@@ -249,10 +249,13 @@ def decompose_and_order(graph, component, component_name, bo_start=0):
         else:
             bubble_index = len(bubbles)
             bubbles.append(bc_inside_nodes)
-            scaffold_graph.add_node(str(bubble_index))
-            scaffold_node_types[str(bubble_index)] = "b"
+            # a segment name cannot contain a blank: this id cannot collide with a node of the graph
+            # (the bare index did, for graphs whose segments are named 0, 1, 2, ...)
+            bubble_id = "bubble %d" % bubble_index
+            scaffold_graph.add_node(bubble_id)
+            scaffold_node_types[bubble_id] = "b"
             for end_node in bc_end_nodes:
-                scaffold_graph.add_edge(str(bubble_index), "+", end_node, "+", 0)
+                scaffold_graph.add_edge(bubble_id, "+", end_node, "+", 0)
 
     logger.info(f"  Bubbles: {len(bubbles)}")
     logger.info(f"  Scaffold graph: {len(scaffold_graph)} nodes")
@@ -312,7 +315,7 @@ def decompose_and_order(graph, component, component_name, bo_start=0):
         if node_type == "s":
             node_order[node] = (bo, 0)
         elif node_type == "b":
-            for i, n in enumerate(sorted(bubbles[int(node)])):
+            for i, n in enumerate(sorted(bubbles[int(node.split(" ")[1])])):
                 node_order[n] = (bo, i + 1)
         else:
             assert False
